@@ -26,256 +26,132 @@ def endAgree : VM.End → SLD.End → Prop
 /-- the state `runQuery` starts the search in -/
 def startM (prog : List Term) : MS := { user := initState prog none }
 
-theorem queryPromise_eq (prog : List Term) (query : Term) (max : Nat) (hb : bodyOK query = true)
-    (hw : wfT query = true) :
+theorem dbodyS_shift (fl : Bool) (k : Nat) (b : Term) : dbodyS fl (SLD.shift k b) = dbodyS fl b := by
+  rw [shift_eq_rename, dbodyS_rename]
+
+theorem queryPromise_eq {fl : Bool} (prog : List Term) (query : Term) (max : Nat) (hb : dbodyS fl query = true)
+    (hw : wfT query = true) (hnv : ∀ v, query ≠ .var v) :
+    ∃ cs, Forall2 (fun cl dj => CRel fl cl (qHead (SLD.shift 10 query)) dj) cs (SLD.disjuncts (SLD.shift 10 query)) ∧
     queryPromise prog (SLD.shift 10 query) max none =
-      (({ id := 1, delayed := [Thunk.clause (clauseOf (qClause (SLD.shift 10 query)))
-          (argList (qHead (SLD.shift 10 query))) (.collect (SLD.shift 10 query) max) [] 1] } : Pr),
+      (({ id := 1, delayed := cs.map (fun cl => Thunk.clause cl
+          (argList (qHead (SLD.shift 10 query))) (.collect (SLD.shift 10 query) max) [] 1) } : Pr),
        { startM prog with user := { (startM prog).user with nextId := 2 } }) := by
   unfold queryPromise
-  have hb' : bodyOK (SLD.shift 10 query) = true := by rw [bodyOK_shift]; exact hb
+  have hb' : dbodyS fl (SLD.shift 10 query) = true := by rw [dbodyS_shift]; exact hb
   have hw' : wfT (SLD.shift 10 query) = true := by rw [shift_eq_rename, wfT_rename]; exact hw
-  rw [callGoal_query _ _ _ hb' hw']
-  simp only [clausesCall, freshId, List.map_cons, List.map_nil, startM, initState_nextId]
+  have hnv' : ∀ v, SLD.shift 10 query ≠ .var v := by
+    intro v hv
+    cases query with
+    | var w => exact hnv w rfl
+    | _ => simp [SLD.shift] at hv
+  obtain ⟨cs, hrel, hcg⟩ := callGoal_queryM (fl := fl) (SLD.shift 10 query) (.collect (SLD.shift 10 query) max)
+    { user := initState prog none } hb' hw' hnv'
+  refine ⟨cs, hrel, ?_⟩
+  rw [hcg]
+  simp only [clausesCall, freshId, startM, initState_nextId]
 
-theorem grel_of_body {lv : Lv} {σ' : Subst} {π' : Nat → Nat} {D' : Nat → Prop} {id : Nat} (query : Term)
-    (hid : lv.lev id = some 0) :
-    ∀ (cs : List Term) (G1 : List (Term × Nat)),
-      (∀ c ∈ cs, ∀ v, (SLD.shift 10 c).hasVar v = true → (SLD.shift 10 query).hasVar v = true) →
-      Forall2 (fun g1 bg => InD D' g1.1 ∧ g1.2 = id ∧ img σ' π' g1.1 = (bg.rename (· - 10)).subst (tau0 query)) G1
-        (cs.map (SLD.shift 10)) →
-      GRel lv σ' π' D' G1 (cs.map (SLD.Frame.goal · 0))
-  | [], G1, _, h => by cases h; exact .nil
-  | c :: cs, G1, hv, h => by
-    cases h with
-    | cons hd' htl =>
-      refine .cons ⟨hd'.1, 0, ?_, fun _ => by rw [hd'.2.1]; exact hid⟩
-        (grel_of_body query hid cs _ (fun c' hc' => hv c' (by simp [hc'])) htl)
-      rw [hd'.2.2, tau0_b query (hv c (by simp)), unshift]
+/-- the side condition on the run of the VM (`fl = true`, i.e. control constructs in the fragment; it
+    is empty for `fl = false`): in every thunk evaluation of the search that ends in `call(G)`, the
+    goal `G` dereferences — within the model's inner fuel — to a variable or to a body of the fragment;
+    the same for the goal of every `\\+ G` that is evaluated and, recursively, for the search nested
+    in it (see `Good`, `ResFine`, `callOK`; `VisP`: the thunk evaluations of a search) -/
+def CallsOK (fl : Bool) (F : Nat) (prog : List Term) (query : Term) (max : Nat) : Prop :=
+  ∀ k, GoodP fl F k (queryPromise prog (SLD.shift 10 query) max none).1 []
+    (queryPromise prog (SLD.shift 10 query) max none).2
 
-theorem shift_conjunct_vars {query c : Term} (hc : c ∈ SLD.conjuncts query) {v : Nat}
-    (hv : (SLD.shift 10 c).hasVar v = true) : (SLD.shift 10 query).hasVar v = true := by
-  obtain ⟨u, hu, rfl⟩ := hasVar_shift hv
-  rw [shift_eq_rename]
-  exact hasVar_rename_of (π := (· + 10)) (conjuncts_vars hc hu)
+theorem callsOK_false (F : Nat) (prog : List Term) (query : Term) (max : Nat) : CallsOK false F prog query max :=
+  fun _ _ _ _ => by
+    cases F with
+    | zero => exact trivial
+    | succ F' => exact fun hfl => by cases hfl
 
 /-- **the search of the query**: the VM's search of the query's promise against the reference's
-    `solve` on the query's conjuncts -/
-theorem vm_query (prog : List Term) (query : Term) (max : Nat) (hfrag : CutFrag prog query) (hmax : 0 < max)
+    `call/1` of the query -/
+theorem vm_query {fl : Bool} (prog : List Term) (query : Term) (max : Nat) (hfrag : FragS fl prog query) (hmax : 0 < max)
     (F k : Nat) (sig : SigG Err) (m' : MS)
     (hd : dfsP (VM.sem F) 0 k (queryPromise prog (SLD.shift 10 query) max none).1 []
       (queryPromise prog (SLD.shift 10 query) max none).2 = some (sig, m'))
+    (hgood : GoodP fl F k (queryPromise prog (SLD.shift 10 query) max none).1 []
+      (queryPromise prog (SLD.shift 10 query) max none).2)
     (n : Nat) (r1 : SLD.Res)
-    (hs : SLD.solve false (progS prog) n 1 (SLD.maxVar query)
-      ((SLD.conjuncts query).map (SLD.Frame.goal · 0)) query max = some r1) :
+    (hs : SLD.solveAlts false (progS prog) n 0 (SLD.maxVar query)
+      ((SLD.disjuncts query).map (fun x => .frames (SLD.bodyFrames false x 0))) [] query max = some r1) :
     sig = .illScoped ∨
       (Forall2 (AnsRel (SLD.shift 10 query)) m'.user.answers.reverse r1.answers ∧
         endAgree (endOf (ForceDFSG.toRes sig)) (sldEnd r1.stop)) := by
-  obtain ⟨hprog, hb, hw, hsmall⟩ := hfrag
+  obtain ⟨hprog, hb, hw, hqnv, hsmall⟩ := hfrag
   let query' := SLD.shift 10 query
   let B := SLD.maxVar query
-  have hb' : bodyOK query' = true := by show bodyOK (SLD.shift 10 query) = true; rw [bodyOK_shift]; exact hb
-  have hw' : wfT query' = true := by show wfT (SLD.shift 10 query) = true; rw [shift_eq_rename, wfT_rename]; exact hw
-  have hcq := clauseOK_qClause hb' hw'
-  have hcr : CRel (clauseOf (qClause query')) (qHead query') query' := by
-    have := (clauseOf_spec (qClause query') hcq).2
-    simpa [qClause, headBody_rule] using this
-  rw [queryPromise_eq prog query max hb hw] at hd
+  obtain ⟨cs, hrel, hqp⟩ := queryPromise_eq prog query max hb hw hqnv
+  rw [hqp] at hd hgood
   obtain ⟨hnv0, hans0⟩ := initState_nextVar prog
-  cases k with
-  | zero => simp [dfsP] at hd
-  | succ k0 =>
-  rw [nocut' rfl (by simp) rfl] at hd
-  cases k0 with
-  | zero => simp [dfsAlts] at hd
-  | succ k' =>
-  have ih := (t_all (tmpl := query') (max := max) (prog := prog) (F := F) hprog k')
-  have hf : afterChild ({ ({ id := 1, delayed := [Thunk.clause (clauseOf (qClause query')) (argList (qHead query'))
-      (.collect query' max) [] 1] } : Pr) with cutParent := none }) = ({ id := 1, delayed := [] } : Pr) := by
-    simp [afterChild]
-  rw [hf] at hd
-  generalize hms : tick ({ startM prog with user := { (startM prog).user with nextId := 2 } } : MS) = ms at hd
-  have hmsv : ms.user.nextVar = 1000000 := by rw [← hms]; exact hnv0
-  have hmsa : ms.user.answers = [] := by rw [← hms]; exact hans0
-  have hmst : StOK prog ms := by rw [← hms]; exact ⟨rfl, by show 0 < 2; omega⟩
-  cases hev : evalThunk F (Thunk.clause (clauseOf (qClause query')) (argList (qHead query')) (.collect query' max) [] 1) ms with
-  | none => rw [dfsAlts_thunk_none (sem := VM.sem F) (by exact hev)] at hd; cases hd
-  | some pr =>
-  obtain ⟨q0, m1⟩ := pr
-  -- the relation before the activation
   have hqv : ∀ v, query'.hasVar v = true → 10 ≤ v ∧ v - 10 < B := fun v hv => qvar_bounds query hv
-  have hsim0 : SimW query' 1000000 [] (fun v => .var v) (· + B) (fun v => query'.hasVar v = true) (2 * B + 11) := by
+  have hsim0 : SimW query' 1000000 [] (fun v => .var v) (· - 10) (fun v => query'.hasVar v = true) B := by
     refine ⟨mg_nil _, chainOK_nil, by omega, ?_, ?_, ?_, fun v hv => hv⟩
     · intro v hv; have := hqv v hv; omega
-    · intro x y _ _ hxy; simpa using hxy
+    · rintro x y ⟨v, hv, hx⟩ ⟨w, hw, hy⟩ hxy
+      simp only [Term.hasVar, beq_iff_eq] at hx hy
+      subst hx; subst hy
+      have := hqv v hv; have := hqv w hw
+      have hxy' : v - 10 = w - 10 := hxy
+      omega
     · rintro x ⟨v, hv, hx⟩
       simp only [Term.hasVar, beq_iff_eq] at hx
       subst hx
-      have := hqv v hv
-      show v + B < 2 * B + 11
-      omega
-  have hrv0 : ∀ u, RV (fun v => Term.var v) (fun v => query'.hasVar v = true) u → query'.hasVar u = true := by
-    rintro u ⟨v, hv, hu⟩
-    simp only [Term.hasVar, beq_iff_eq] at hu
-    subst hu; exact hv
-  have hcv : ∀ x, ((qHead query').hasVar x = true ∨ query'.hasVar x = true) → query'.hasVar x = true := by
-    rintro x (hx | hx)
-    · exact (qHead_hasVar query' x).1 hx
-    · exact hx
-  have hgD : InD (fun v => query'.hasVar v = true) (qHead query') := fun v hv => (qHead_hasVar query' v).1 hv
-  have hτ : MguLike (img (fun v => .var v) (· + B) (qHead query')) ((qHead query').rename (· - 10)) (tau0 query) := by
-    rw [img_id]
-    exact tau0_mgu query (qHead_hasVar query')
-  rcases thunk_head' (max := max) hcr hsim0 F (qHead query') (.collect query' max) 1 ms (q0, m1)
-      (Nat.le_of_eq hmsv.symm) hgD (qHead_shape query') ⟨rfl, rfl⟩ hev (· - 10) (2 * B + 11) (Nat.le_refl _)
-      (fun x y hx hy hxy => by
-        have := hqv x (hcv x hx); have := hqv y (hcv y hy)
-        have hxy' : x - 10 = y - 10 := hxy
-        omega)
-      (fun x u hx hu => by
-        have := hqv x (hcv x hx); have := hqv u (hrv0 u hu)
-        show u + B ≠ x - 10
-        omega)
-      (fun x hx => by
-        have := hqv x (hcv x hx)
-        show x - 10 < 2 * B + 11
-        omega) with
-    ⟨N', _, _, hno⟩ | ⟨fuel', env', N', K1, Bs, hN', hcont, hBs, _, hok⟩
-  · exact absurd hτ.sound (hno (tau0 query))
-  · obtain ⟨σ', π', D', G1, hW', hDD', heq, hcg, hbody, hDchar⟩ := hok (tau0 query) hτ
-    -- images after the activation
-    have himg0 : ∀ t, InD (fun v => query'.hasVar v = true) t → img σ' π' t = t.rename (· - 10) := by
-      intro t ht
-      rw [heq t ht, img_id]
-      exact tau0_a query ht
-    have hWB : SimW query' N' env' σ' π' D' B := by
-      refine ⟨hW'.mg, hW'.chain, hW'.pos, hW'.dlt, hW'.inj, ?_, hW'.tmplD⟩
-      rintro x ⟨v, hv, hx⟩
-      have h1 : (img σ' π' (.var v)).hasVar (π' x) = true := by
-        simpa [img, Term.subst] using hasVar_rename_of hx
-      rcases hDchar v hv with hv0 | ⟨x0, hx0, hx0e⟩
-      · rw [himg0 (.var v) (fun w hw => by simp only [Term.hasVar, beq_iff_eq] at hw; subst hw; exact hv0)] at h1
-        simp only [Term.rename, Term.subst, Term.hasVar, beq_iff_eq] at h1
-        have := hqv v hv0
-        omega
-      · rw [hx0e, tau0_b query (t := .var x0) (fun w hw => by
-          simp only [Term.hasVar, beq_iff_eq] at hw; subst hw; exact hcv _ hx0)] at h1
-        simp only [Term.rename, Term.subst, Term.hasVar, beq_iff_eq] at h1
-        have := hqv x0 (hcv x0 hx0)
-        omega
-    have hq : query = img σ' π' query' := by
-      rw [himg0 query' (fun v hv => hv)]
-      exact (unshift 10 query).symm
-    -- the level map below the query's own frame
-    let lv1 : Lv := [(1, some 0)]
-    have hlev1 : lv1.lev 1 = some 0 := lev_cons_self 1 (some 0) []
-    have hok0 : LvOK ([] : Lv) 0 := ⟨List.nodup_nil, fun _ h => by simp at h, .nil, fun _ h => by simp at h⟩
-    have hok1 : LvOK lv1 1 := hok0.push (by decide) (by simp)
-    have hG1id : ∀ it ∈ G1, it.2 = 1 := forall2_left hbody (fun a b h => h.2.1)
-    have hcoG1 : CutsOK lv1 (G1 ++ []) := by
-      rw [List.append_nil]
-      refine ⟨fun it hit _ => ⟨0, by rw [hG1id it hit]; exact hlev1⟩, ?_⟩
-      have : ∀ it ∈ G1, it.2 = 1 := hG1id
-      clear hbody hcg hDchar hok
-      induction G1 with
-      | nil => exact .nil
-      | cons a G1 ihg =>
-        refine List.pairwise_cons.2 ⟨?_, ihg (fun it hit => hG1id it (by simp [hit])) (fun it hit => this it (by simp [hit]))⟩
-        intro b hb _ _ la lb hla hlb
-        rw [this a (by simp), hlev1] at hla
-        rw [this b (by simp [hb]), hlev1] at hlb
-        simp only [Option.some.injEq] at hla hlb
-        omega
-    have hspec1 : PSpec query' max prog lv1 1 q0 m1 [] r1 ∧ StOK prog m1 ∧ N' ≤ m1.user.nextVar := by
-      have hst' : StOK prog (bump ms N') := stOK_bump hmst N'
-      have hans' : (bump ms N').user.answers = [] := hmsa
-      rcases hBs with hBs | ⟨hBs, hbq⟩
-      · have hgr : GRel lv1 σ' π' D' (G1 ++ []) ((SLD.conjuncts query).map (SLD.Frame.goal · 0)) := by
-          rw [List.append_nil]
-          have hconj : SLD.conjuncts query' = (SLD.conjuncts query).map (SLD.shift 10) := conjuncts_shift 10 query
-          rw [← hBs, hconj] at hbody
-          exact grel_of_body query hlev1 _ _ (fun c hc v hv => shift_conjunct_vars hc hv) hbody
-        have := cont_run query' max prog hprog fuel' K1 env' (bump ms N') q0 m1 hcont lv1 _ query B
-          ⟨N', σ', π', D', G1 ++ [], Nat.le_refl _, hWB, hcg [] .collect, hgr, hcoG1, hq, trivial⟩ hst' n 1 r1
-          (by rw [hans']; exact hs)
-        rw [hans'] at this
-        exact this
-      · -- the query is `true`: the reference runs it, the VM has nothing to do
-        subst hBs
-        cases hbody
-        have hqt : query = .atom "true" := by
-          have : SLD.shift 10 query = .atom "true" := hbq
-          cases query <;> simp_all [SLD.shift]
-        have hs' : SLD.solve false (progS prog) n 1 B [SLD.Frame.goal (.atom "true") 0] query max = some r1 := by
-          have := hs
-          show SLD.solve false (progS prog) n 1 (SLD.maxVar query) [SLD.Frame.goal (.atom "true") 0] query max = some r1
-          rw [hqt] at this ⊢
-          simpa [SLD.conjuncts, SLD.wrapVar] using this
-        cases n with
-        | zero => rw [solve_zero] at hs'; cases hs'
-        | succ n' =>
-          rw [solve_true] at hs'
-          have := cont_run query' max prog hprog fuel' K1 env' (bump ms N') q0 m1 hcont lv1 [] query B
-            ⟨N', σ', π', D', [], Nat.le_refl _, hWB, by simpa using hcg [] .collect, .nil, CutsOK.nil _, hq, trivial⟩
-            hst' n' 1 r1 (by rw [hans']; exact hs')
-          rw [hans'] at this
-          exact this
-    obtain ⟨hspec, hst1, hnv1⟩ := hspec1
-    have hd' : dfsAlts (VM.sem F) 0 (k' + 1)
-        (Thunk.clause (clauseOf (qClause query')) (argList (qHead query')) (.collect query' max) [] 1)
-        ({ id := 1, delayed := [] } : Pr) (([] : Lv).map Prod.fst) ms = some (sig, m') := hd
-    have hlv1 : lv1.map Prod.fst = push ({ id := 1, delayed := [] } : Pr).id (([] : Lv).map Prod.fst) := by
-      simp [lv1, push]
-    have hfin : ∀ (m2 : MS) (sg : SigG Err), Match query' max prog lv1 [] m1 m2 sg r1 →
-        (sg = .exhausted none ∨ sg ≠ .exhausted none) →
-        ∀ sigF, (sg = .exhausted none → sigF = .exhausted none) →
-          (sg ≠ .exhausted none → sigF = (absorb 1 sg m2).1) →
-        Forall2 (AnsRel query') m2.user.answers.reverse r1.answers ∧
-          endAgree (endOf (ForceDFSG.toRes sigF)) (sldEnd r1.stop) := by
-      intro m2 sg hm _ sigF hF1 hF2
-      obtain ⟨new, hnew, hfa⟩ := hm.ans
-      refine ⟨by rw [hnew, List.append_nil]; exact hfa, ?_⟩
-      rcases hm.stop with ⟨h1, h2, _⟩ | ⟨c, l, h1, h2, h3, _⟩ | ⟨h1, h2⟩ | ⟨F', c1, c2, ex, co, h1, h2⟩
-      · rw [hF1 h1, h2]; trivial
-      · have hc1 : c = 1 := by
-          have := mem_ids_of_lev h3
-          simpa [lv1] using this
-        subst hc1
-        rw [hF2 (by rw [h1]; simp), h1, absorb_cut_eq, h2]
-        trivial
-      · rw [hF2 (by rw [h1]; simp), h1, absorb_found, h2]; trivial
-      · obtain ⟨co', hco'⟩ := absorb_raised 1 (.exc (errT F' c1)) co m2
-        rw [hF2 (by rw [h1]; simp), h1, hco', h2]
-        show endAgree (.err F') (.err F')
-        rfl
-    rcases after_child ih.1 hd' (by exact hev) hlv1 hspec hok1 hst1 hmax rfl with
-      hill | ⟨m2, hm, hf2⟩ | ⟨sig1, m2, hm, hne, hresA⟩
-    · exact Or.inl hill
-    · right
-      cases k' with
-      | zero => simp [dfsP] at hf2
-      | succ k'' =>
-        rw [leaf_ok' rfl rfl] at hf2
-        simp only [Option.some.injEq, Prod.mk.injEq] at hf2
-        obtain ⟨rfl, rfl⟩ := hf2
-        exact hfin m2 _ hm (Or.inl rfl) _ (fun _ => rfl) (fun h => absurd rfl h)
-    · right
-      have h1 : sig = (absorb 1 sig1 m2).1 := by rw [← hresA]
-      have h2 : m' = (absorb 1 sig1 m2).2 := by rw [← hresA]
-      have hans2 : m'.user.answers = m2.user.answers := by
-        rw [h2]
-        cases sig1 with
-        | exhausted co => cases co with
-          | none => rfl
-          | some c => by_cases hc : c = 1 <;> simp [absorb, hc, tick]
-        | raised e co => cases co with
-          | none => rfl
-          | some c => by_cases hc : c = 1 <;> simp [absorb, hc]
-        | _ => rfl
-      rw [hans2]
-      exact hfin m2 sig1 hm (Or.inr hne) sig (fun h => absurd h hne) (fun _ => h1)
+      exact (hqv v hv).2
+  have hq : query = img (fun v => .var v) (· - 10) query' := by
+    rw [img_id]; exact (unshift 10 query).symm
+  have hok0 : LvOK none ([] : Lv) 0 := ⟨List.nodup_nil, fun _ h => by simp at h, .nil, fun _ h => by simp at h,
+    (fun _ h => by cases h), (fun _ h => by cases h)⟩
+  have hgv0 : ∀ v, query'.hasVar v = true → RV (fun v => Term.var v) (fun v => query'.hasVar v = true) v :=
+    fun v hv => ⟨v, hv, by simp [Term.hasVar]⟩
+  obtain ⟨hW2, hgD2, its, hits1, hits2, hitsR⟩ := call_items (fl := fl) 0 hsim0 hgv0 hrel
+  have hqr : query'.rename (· - 10) = query := unshift 10 query
+  rw [hqr] at hits2
+  have hspec : PSpec fl none query' max prog [] 0
+      ({ id := 1, delayed := cs.map (fun cl => Thunk.clause cl (argList (qHead query'))
+          (.collect query' max) [] 1) } : Pr)
+      { startM prog with user := { (startM prog).user with nextId := 2 } } [] r1 := by
+    have := PSpec.alts (fl := fl) (mo := none) (tmpl := query') (max := max) (prog := prog) (lv := []) (its := its)
+      (m := { startM prog with user := { (startM prog).user with nextId := 2 } })
+      (g := qHead query') (K := .collect query' max) (env := []) (R := []) (q := query) (nv := B) (n := n) (d := 0)
+      (id := 1) (r := r1)
+      hans0 (by decide) (qHead_shape query')
+      ⟨1000000, fun v => .var v, (· - 10), _, [], Nat.le_of_eq hnv0.symm,
+        hW2, .collect rfl, .nil rfl, CutsOK.nil _, hq, hgD2, hitsR⟩ (by rw [hits2]; simpa using hs)
+    rw [← hits1]
+    simpa [List.map_map, Function.comp_def] using this
+  rcases tp_all (tmpl := query') (max := max) (prog := prog) hprog F none k _ [] _ sig m' hd hgood 0 [] r1 hspec.toW hok0
+      ⟨rfl, by show 0 < 2; omega, initState_cancelAt prog⟩ hmax with hill | hm
+  · exact Or.inl hill
+  · right
+    obtain ⟨new, hnew, hfa, _⟩ := hm.ans
+    refine ⟨by rw [hnew, List.append_nil]; exact hfa, ?_⟩
+    rcases hm.stop with ⟨h1, h2, _⟩ | ⟨c, l, _, _, h3, _⟩ | ⟨h1, h2⟩ | ⟨F', c1, c2, ex, co, h1, h2⟩
+    · rw [h1, h2]; trivial
+    · simp [Lv.lev] at h3
+    · rw [h1, h2]; trivial
+    · rw [h1, h2]
+      show endAgree (.err F') (.err F')
+      rfl
 
 /-! ## the theorems -/
+
+/-- the general form: `fl = false` is the fragment of stages 1 and 2, `fl = true` adds `call/1` -/
+theorem vm_refines_sld_S {fl : Bool} (prog : List Term) (query : Term) (max : Nat)
+    (hfrag : FragS fl prog query) (hmax : 0 < max)
+    (f1 f2 : Nat) (as1 as2 : List Term) (e1 : VM.End) (e2 : SLD.End)
+    (h1 : VM.runQuery f1 prog (Driver.C01.shiftVars 10 query) max = some (as1, e1))
+    (h2 : SLD.solveQuery f2 prog query max = some (as2, e2))
+    (hcalls : CallsOK fl f1 prog query max) :
+    Forall2 (AnsRel (Driver.C01.shiftVars 10 query)) as1 as2 ∧ endAgree e1 e2 := by
+  rw [shiftVars_eq] at h1 ⊢
+  obtain ⟨k, sig, m', hd, hsig, has1, he1⟩ := vm_runQuery_conv f1 prog _ max as1 e1 h1
+  obtain ⟨n, r1, hs, has2, he2⟩ := solveQuery_call prog query max f2 as2 e2 hfrag.goal hfrag.wf hfrag.nonvar h2
+  rcases vm_query prog query max hfrag hmax f1 k sig m' hd (hcalls k) n r1 hs with hill | ⟨hfa, hend⟩
+  · exact absurd hill hsig
+  · rw [has1, has2, he1, he2]
+    exact ⟨hfa, hend⟩
 
 /-- **vm_refines_sld_cut** (stage 2; `vm_refines_sld_horn` is stage 1, the special case without cut).
     Program and query in the fragment (`CutFrag`: Horn clauses with `!` in bodies — and in the query),
@@ -291,14 +167,35 @@ theorem vm_refines_sld_cut (prog : List Term) (query : Term) (max : Nat)
     (f1 f2 : Nat) (as1 as2 : List Term) (e1 : VM.End) (e2 : SLD.End)
     (h1 : VM.runQuery f1 prog (Driver.C01.shiftVars 10 query) max = some (as1, e1))
     (h2 : SLD.solveQuery f2 prog query max = some (as2, e2)) :
-    Forall2 (AnsRel (Driver.C01.shiftVars 10 query)) as1 as2 ∧ endAgree e1 e2 := by
-  rw [shiftVars_eq] at h1 ⊢
-  obtain ⟨k, sig, m', hd, hsig, has1, he1⟩ := vm_runQuery_conv f1 prog _ max as1 e1 h1
-  obtain ⟨n, r1, hs, has2, he2⟩ := solveQuery_horn prog query max f2 as2 e2 hfrag.goal hfrag.wf h2
-  rcases vm_query prog query max hfrag hmax f1 k sig m' hd n r1 hs with hill | ⟨hfa, hend⟩
-  · exact absurd hill hsig
-  · rw [has1, has2, he1, he2]
-    exact ⟨hfa, hend⟩
+    Forall2 (AnsRel (Driver.C01.shiftVars 10 query)) as1 as2 ∧ endAgree e1 e2 :=
+  vm_refines_sld_S prog query max (FragS.of_cut hfrag) hmax f1 f2 as1 as2 e1 e2 h1 h2
+    (callsOK_false f1 prog query max)
+
+/-- **vm_refines_sld_call** (stage 3a, `call/1`): program and query in `CallFrag` (Horn clauses with
+    `!` and `call(G)`, `G` any term), the side condition `CallsOK` on the goals that are called. -/
+theorem vm_refines_sld_call (prog : List Term) (query : Term) (max : Nat)
+    (hfrag : CallFrag prog query) (hmax : 0 < max)
+    (f1 f2 : Nat) (as1 as2 : List Term) (e1 : VM.End) (e2 : SLD.End)
+    (h1 : VM.runQuery f1 prog (Driver.C01.shiftVars 10 query) max = some (as1, e1))
+    (h2 : SLD.solveQuery f2 prog query max = some (as2, e2))
+    (hcalls : CallsOK true f1 prog query max) :
+    Forall2 (AnsRel (Driver.C01.shiftVars 10 query)) as1 as2 ∧ endAgree e1 e2 :=
+  vm_refines_sld_S prog query max hfrag hmax f1 f2 as1 as2 e1 e2 h1 h2 hcalls
+
+/-- **vm_refines_sld_ctl** (stage 3): program and query in `CtlFrag` (clauses over user predicates
+    whose bodies are disjunctions — at the top level — of conjunctions of `!`, Horn goals and the
+    control constructs `call(G)`, `(C -> T ; E)`, `(C -> T)`, `once(G)`, `\\+ G`; the same for the
+    query and for the goals that are called), the side condition `CallsOK` on the goals
+    that are called.  A cut inside `call/1`, `once/1`, `\\+`, inside the condition or a branch of an
+    if-then(-else) is local. -/
+theorem vm_refines_sld_ctl (prog : List Term) (query : Term) (max : Nat)
+    (hfrag : CtlFrag prog query) (hmax : 0 < max)
+    (f1 f2 : Nat) (as1 as2 : List Term) (e1 : VM.End) (e2 : SLD.End)
+    (h1 : VM.runQuery f1 prog (Driver.C01.shiftVars 10 query) max = some (as1, e1))
+    (h2 : SLD.solveQuery f2 prog query max = some (as2, e2))
+    (hcalls : CallsOK true f1 prog query max) :
+    Forall2 (AnsRel (Driver.C01.shiftVars 10 query)) as1 as2 ∧ endAgree e1 e2 :=
+  vm_refines_sld_S prog query max hfrag hmax f1 f2 as1 as2 e1 e2 h1 h2 hcalls
 
 theorem vm_refines_sld_horn (prog : List Term) (query : Term) (max : Nat)
     (hfrag : HornFrag prog query) (hmax : 0 < max)
@@ -368,6 +265,24 @@ theorem vm_refines_sld_horn_canon (prog : List Term) (query : Term) (max : Nat)
     (hinner : SLD.maxVar query = 0 ∨ ∀ a ∈ as1, a ≠ Driver.C01.shiftVars 10 query) :
     as1.map Term.canon = as2.map Term.canon ∧ endAgree e1 e2 :=
   vm_refines_sld_cut_canon prog query max (CutFrag.of_horn hfrag) hmax f1 f2 as1 as2 e1 e2 h1 h2 hinner
+
+/-- **what stage 3 leaves open** (NOT proved), as a statement: the refinement for the fragment with
+    (a) a disjunction `(A ; B)` that is not an if-then-else as a GOAL inside a conjunction (the VM
+    runs the three clauses of `;`/2 — the two if-then-else clauses fail at the head — and
+    `P ; Q :- call((P ; Q))`: a frame without level in the reference, as for `true`; the call of the
+    disjunction itself is covered: `call/1` of a goal with top-level disjuncts), `','/2` as a predicate,
+    and (b) `call/N`, 2 ≤ N ≤ 8 (for N ≥ 9 the VM MODEL and the reference DISAGREE: the model's
+    `builtin "call"` accepts any arity and calls the goal, the reference — like the Go engine, which
+    only defines call/1 … call/8 — raises `existence_error(procedure, call/9)`; witness:
+    `p(1,2,3,4,5,6,7,8).  ?- call(p,1,2,3,4,5,6,7,8).`).  `Frag` is any decidable fragment
+    predicate that contains these goals in addition to those of `CtlFrag`. -/
+def VmRefinesSldCtlFullStatement (Frag : List Term → Term → Prop) : Prop :=
+  ∀ (prog : List Term) (query : Term) (max : Nat), Frag prog query → 0 < max →
+    ∀ (f1 f2 : Nat) (as1 as2 : List Term) (e1 : VM.End) (e2 : SLD.End),
+      VM.runQuery f1 prog (Driver.C01.shiftVars 10 query) max = some (as1, e1) →
+      SLD.solveQuery f2 prog query max = some (as2, e2) →
+      CallsOK true f1 prog query max →
+      Forall2 (AnsRel (Driver.C01.shiftVars 10 query)) as1 as2 ∧ endAgree e1 e2
 
 /-- the target statement without the extra hypothesis (NOT proved: in the model, `app` returns the
     unresolved template when `applyAll` exceeds the inner fuel 100000; see the report) -/
